@@ -59,6 +59,8 @@ instance : HasAbs CF := ⟨fun a => ⟨cabs a, 0.0⟩⟩
 instance : HasI CF := ⟨⟨0.0, 1.0⟩⟩
 instance : HasPi CF := ⟨⟨3.141592653589793, 0.0⟩⟩
 instance : HasIsZero CF := ⟨fun a => a.re == 0.0 && a.im == 0.0⟩
+instance : HasRpow CF := ⟨fun a b => ⟨Float.pow a.re b.re, 0.0⟩⟩
+instance : HasLtB CF := ⟨fun a b => a.re < b.re⟩
 end CF
 
 end Exponax
